@@ -9,7 +9,7 @@ corr-2      model bidder+decoder vs the real uu read filter, on the MODEL's enco
 spec        every filter {gzip,bzip2,xz,lzma,lzip,zstd,lz4,compress,uuencode,b64encode}, stacks <= 3,
             options, write/read chunkings: recovered bytes == input, reader filter codes == writer
             filter codes, two-member concatenation decodes to the concatenation (real code only)."""
-import os, json, base64, binascii, resource, time
+import os, re, json, base64, binascii, resource, time
 import vlib
 from vlib import vfmt, vparse
 
@@ -144,7 +144,7 @@ def pick_len(r, tier, allow_big=True):
         return r.randrange(3000, 300000)
     if not allow_big:
         return r.choice(SIZES_MID)
-    if tier == "thorough" and c > .95:
+    if tier == "thorough" and c > .97:
         return r.choice(SIZES_HUGE)
     return r.choice(SIZES_BIG)
 
@@ -277,6 +277,17 @@ def fixed_rt_cases(tier):
     # uuencode output whose length is 2 (mod read block size): the final "end" line is cut after "en"
     out.append(vfmt([2, ["uuencode"], "", [1, 5, 22282], [], [10240], 0, 0]))    # 30722 = 3 * 10240 + 2
     out.append(vfmt([2, ["uuencode"], "", [1, 5, 2959], [], [4096], 1, 0]))      # 4098 = 4096 + 2
+    # first read block ends exactly at the end of the header line / of the first body line
+    out.append(vfmt([2, ["uuencode"], "", [1, 5, 100], [], [12, 4096], 1, 0]))
+    out.append(vfmt([2, ["uuencode"], "", [1, 5, 100], [], [74], 0, 0]))
+    out.append(vfmt([2, ["b64encode"], "", [1, 5, 100], [], [19, 4096], 1, 0]))
+    out.append(vfmt([2, ["b64encode"], "", [1, 5, 100], [], [96], 0, 0]))
+    out.append(vfmt([2, ["gzip", "uuencode"], "uuencode:name=data.gz", [1, 5, 1000], [], [80], 0, 0]))   # 18 + 62
+    # every small read block size on short uuencode / b64encode output (with the repairs in place all must pass)
+    for f in UUISH:
+        for n in (0, 1, 46):
+            for rb in (1, 2, 3, 5, 7, 11, 12, 13, 14, 15, 16, 17, 18, 19, 20, 23, 24, 25):
+                out.append(vfmt([2, [f], "", [1, 7, n] if n else b"", [], [rb], rb % 2, 0]))
     return out
 
 def fixed_concat_cases(tier):
@@ -327,6 +338,13 @@ def rt_oracle(case_line, impl_line):
                 "same bytes read as one block decode correctly. In ST_UUEND a window that ends inside the final 'end' line is not "
                 "carried over (the nl == 0 test excludes ST_UUEND), so 'e' / 'en' fails the \"end\" comparison"
                 % (n, stack, c[5] if op == 2 else c[7]))
+    if (cls is None and retry == 1 and filters[-1] in UUISH and rstatus == 0 and rcodes == [0]
+            and bid_window_at_line_boundary(filters, allopts, n, c[5] if op == 2 else c[7], rm)):
+        return ("C03:uu:bidder-window-at-line-boundary",
+                "%s output (stack [%s], %d data bytes) read with blocks %s is not recognised although the same bytes read as one "
+                "block are: the data buffered when the uu bidder runs ends exactly at the end of the header line ('if (!avail) "
+                "return 0') or of the first body line ('if (avail && ...)'), and the bidder does not read on"
+                % (filters[-1], stack, n, c[5] if op == 2 else c[7]))
     if rstatus != 0:
         return hit("read-error", "reader status %d (%s) after %d of %d bytes" % (rstatus, err, reclen, n))
     if rcodes != wcodes:
@@ -338,6 +356,36 @@ def rt_oracle(case_line, impl_line):
     if fb_in > outlen or fb_in < 0:
         return hit("filter-bytes-in", "archive_filter_bytes(-1) = %d but the archive has %d bytes" % (fb_in, outlen))
     return None
+
+def uu_header_len(f, opts):
+    mode = opts.get((f, "mode"))
+    m = 0o644 if mode is None else mode_value(mode)
+    name = opts.get((f, "name"))
+    name = b"-" if name is None else name.encode("utf-8")
+    return (6 if f == "uuencode" else 13) + len("%o" % m) + 1 + len(name) + 1
+
+def first_window(sizes, least):
+    """bytes buffered when the uu bidder first looks: whole read blocks, at least [least] bytes
+    (what the bidders registered before it have asked for)"""
+    if not sizes:
+        return None
+    pos, k = 0, 0
+    while pos < least or k == 0:
+        pos += max(1, sizes[k % len(sizes)])
+        k += 1
+    return pos
+
+def bid_window_at_line_boundary(filters, wopts, n, sizes, readmode):
+    f = filters[-1]
+    H = uu_header_len(f, parse_opts(wopts))
+    LB, per = (45, lambda k: 1 + 4 * ((k + 2) // 3) + 1) if f == "uuencode" else (57, lambda k: 4 * ((k + 2) // 3) + 1)
+    l2 = set([per(LB)])
+    if len(filters) == 1:
+        l2 = set([per(min(n, LB))]) if n > 0 else set()
+    else:
+        l2 |= set(per(k) for k in range(1, LB))
+    w = first_window(sizes, 14 if readmode == 0 else 1)
+    return w is not None and (w == H or any(w == H + x for x in l2))
 
 def run_impl_only(rep, name, exe, cases, oracle, timeout=1500):
     """spec-level part: the real code only (no model exists for the external codecs).  A crash of the
@@ -369,13 +417,17 @@ def run_impl_only(rep, name, exe, cases, oracle, timeout=1500):
         start = k + 1
         if stats["crashes"] > 40:
             break
+    keys = set()
     for c, il in zip(cases, lines_all):
         if il is None:
             continue
         h = oracle(c, il)
         if h:
             stats["oracle_hits"] += 1
-            rep.violation(h[0], h[1], dict(kind="spec", case=c, impl=il), found_input=True)
+            # at most 12 distinct keys are reported (a broken filter fails in every stack that contains it)
+            if h[0] in keys or len(keys) < 12:
+                keys.add(h[0])
+                rep.violation(h[0], h[1], dict(kind="spec", case=c, impl=il), found_input=True)
         else:
             stats["ok"] += 1
             try:
@@ -458,6 +510,8 @@ def enc_oracle(case_line, impl_line):
     except Exception:
         return ("C03:harness:unparsable-output", "harness output not parsable")
     data = b"".join(chunks)
+    if rc == -25 and c[4] and any(ch < 0x20 or ch > 0x7e for ch in c[4][0]):
+        return None          # a writer that refuses a non-printable name: the option is invalid, nothing to check
     if rc != 0:
         return ("C03:%s:write-error" % fname, "%s writer returned %d" % (fname, rc))
     if bpb > 0 and any(len(b) != bpb for b in blocks[:-1]):
@@ -479,12 +533,13 @@ def enc_oracle(case_line, impl_line):
     return None
 
 # ------------------------------------------------------------------ corr-2: uu read filter
-def header_is_readable(case0):
-    """mode prints as exactly three octal digits and the name is printable ASCII: outside this class
-    the reader is known not to recognise the writer's output (defect classes above)"""
-    mode = case0[3][0] if case0[3] else b"644"
+def header_is_readable(text, case0):
+    """the header line has exactly three octal digits and a printable name: outside this class the
+    reader is known not to recognise the writer's output (defect classes above)"""
+    line = text.split(b"\n", 1)[0]
     name = case0[4][0] if case0[4] else b"-"
-    return mode_value(mode.decode("latin1")) >= 0o100 and all(0x20 <= ch <= 0x7e for ch in name) and len(name) < 100000
+    return (re.fullmatch(rb"begin(-base64)? [0-7]{3} [\x20-\x7e]{1,100000}", line) is not None and
+            all(0x20 <= ch <= 0x7e for ch in name))
 
 def gen_dec_from_model(r, case0_line, model_line, tier):
     """read-back cases built from what the MODEL writer emitted for case0"""
@@ -493,7 +548,7 @@ def gen_dec_from_model(r, case0_line, model_line, tier):
     text = b"".join(blocks)
     data = b"".join(c0[5])
     out = []
-    readable = header_is_readable(c0)
+    readable = header_is_readable(text, c0)
     signature = data[:6] == b"begin " or data[:13] == b"begin-base64 "
     expect = [data] if (readable and len(data) > 0 and not signature) else []
     n = len(text)
@@ -583,6 +638,14 @@ def dec_oracle(case_line, impl_line):
         return ("C03:uu:end-line-split-across-reads",
                 "uuencode output for %d data bytes read with blocks %s: ARCHIVE_FATAL; a read block boundary falls inside the "
                 "final 'end' line, which ST_UUEND does not carry over to the next call" % (len(want), c[2]))
+    if status == 0 and codes == [0] and c[2]:
+        w = first_window(c[2], 1)
+        nl1 = c[1].find(b"\n") + 1
+        nl2 = c[1].find(b"\n", nl1) + 1
+        if w in (nl1, nl2):
+            return ("C03:uu:bidder-window-at-line-boundary",
+                    "%s output for %d data bytes read with blocks %s is not recognised: the first read block ends exactly at "
+                    "the end of line %d and the uu bidder does not read on" % (kind, len(want), c[2], 1 if w == nl1 else 2))
     if status != 0:
         return ("C03:%s:uu-read-error" % kind, "the uu read filter fails (%d) on the %s writer's output for %d bytes, read blocks %s" %
                 (status, kind, len(want), c[2]))
@@ -629,9 +692,9 @@ def run(rep):
     corpus = vlib.load_corpus("C03")
     # ---- corr-1: writers
     r = vlib.rng(rep.seed, "C03/enc")
-    n_enc = 250 if quick else 4000
+    n_enc = 200 if quick else 3000
     enc_cases = [c for c in corpus if c.startswith("(0 ")]
-    enc_cases += [gen_enc(r, rep.tier) for _ in range(n_enc)] + [gen_enc(r, rep.tier, big=True) for _ in range(12 if quick else 120)]
+    enc_cases += [gen_enc(r, rep.tier) for _ in range(n_enc)] + [gen_enc(r, rep.tier, big=True) for _ in range(8 if quick else 80)]
     st1 = vlib.correspond(rep, "codec-enc", runner, exe, enc_cases, oracle=enc_oracle)
     phase["corr1"] = round(time.time() - t0, 1)
     # ---- corr-2: uu read filter on the model writer's output (+ mutated lines)
@@ -645,7 +708,7 @@ def run(rep):
     r = vlib.rng(rep.seed, "C03/spec")
     spec_cases = [c for c in corpus if c.startswith("(2 ") or c.startswith("(3 ")]
     spec_cases += fixed_rt_cases(rep.tier) + fixed_concat_cases(rep.tier)
-    n_rt = 260 if quick else 6000
+    n_rt = 200 if quick else 3000
     spec_cases += [gen_rt(r, rep.tier) for _ in range(n_rt)]
     spec_cases += [gen_concat(r, rep.tier) for _ in range(n_rt // 3)]
     st3 = run_impl_only(rep, "codec-spec", exe, spec_cases, rt_oracle, timeout=1500 if quick else 20000)
